@@ -1,5 +1,6 @@
 import MokapotVerif.Wire
 import MokapotVerif.Model.Decoys
+import MokapotVerif.Model.DecoysAnyInput
 /-! Driver glue for `Model/Decoys.lean` (C18). -/
 namespace Mk.Ops.Decoys
 open Mk V
@@ -301,6 +302,31 @@ def opLayout : List V → Option V
       some (V.list [ofList ofChars texts, ofEntries entries, ofBool ok])
   | _ => none
 
+def file? : V → Option (Mk.Decoys.Eol × Mk.Decoys.FastaFile)
+  | V.list [e, lead, rs] => do
+      let e ← eol? e
+      let lead ← toNat? lead
+      let rs ← toList? rec? rs
+      some (e, ⟨lead, rs⟩)
+  | _ => none
+
+/-- `c18-input [[eol lead [[name desc lines] …]] …]` → `[[text …] [[name seq] …] hypotheses_hold parsed]`:
+an input described declaratively *without* restriction on the files (empty files, files of blank
+lines, blank lines before the first record, no file at all) rendered to file texts, the proteins it
+denotes (`fastaInputEntries`; `C18_fasta_input_parse_any`: what the reader must return when every
+record satisfies `RecOK`), and what the model reader makes of the rendered texts (`parseFastaInput`) -/
+def opInput : List V → Option V
+  | [fs] => do
+      let fss ← toList? file? fs
+      let texts := fss.map (fun p => Mk.Decoys.encodeEol p.1 p.2.text)
+      let entries := Mk.Decoys.fastaInputEntries (fss.map (·.2))
+      let ok := fss.all (fun p => p.2.recs.all recOKb)
+      let parsed := match Mk.Decoys.parseFastaInput fss with
+        | none => atom "reject-index"
+        | some ts => ofEntries ts
+      some (V.list [ofList ofChars texts, ofEntries entries, ofBool ok, parsed])
+  | _ => none
+
 end Mk.Ops.Decoys
 
 namespace Mk.Ops
@@ -310,6 +336,7 @@ def decoysOps : List (String × (List V → Option V)) :=
   [("c18-mkdecoys", Decoys.opMkDecoys), ("c18-parse", Decoys.opFastaParse), ("c18-roundtrip", Decoys.opFastaRt),
    ("c18-sites", Decoys.opSites18), ("spec-C18", Decoys.opSpecC18),
    ("c18-run", Decoys.opRun), ("c18-run-default", Decoys.opRunDefault), ("spec-C18-file", Decoys.opSpecFile),
-   ("c18-defaults", Decoys.opDefaults), ("spec-C18-calls", Decoys.opSpecCalls), ("c18-layout", Decoys.opLayout)]
+   ("c18-defaults", Decoys.opDefaults), ("spec-C18-calls", Decoys.opSpecCalls), ("c18-layout", Decoys.opLayout),
+   ("c18-input", Decoys.opInput)]
 
 end Mk.Ops
